@@ -79,10 +79,12 @@ Print Assumptions C05_program_balanced_partial.
 
 (* FULL for the fragment `fprogram` (decidable): expressions literal / variable / element read / unused temporaries
    (Länge, gleich) / slice / Text concatenation with temporary or variable left operand / short-circuit `und`, `oder`;
-   statements declaration, expression statement (discarded result), block, `Wenn` with both arms.  Every program of the
+   statements declaration, assignment to a variable and to an element/field (copy before free), expression statement
+   (discarded result), block, `Wenn` with both arms, `Solange` and `Mache ... Solange` loops (condition temporaries in
+   their own scope) with `Verlasse die Schleife` / `Fahre mit der Schleife fort` from inner scopes.  Every program of the
    fragment that the model compiles passes the static discipline, so every normally terminating run — any oracle, any
-   fuel — has a balanced ledger.  (Assignment, `falls`, list/struct literals, calls, loops and their exits are NOT in
-   this fragment: see C05_program_balanced_bounded / _partial and the list in Lower/CompileOk.v.) *)
+   fuel — has a balanced ledger.  (`falls`, list/struct literals, calls and return, `Wiederhole`, counting and for-each
+   loops are NOT in this fragment: see C05_program_balanced_bounded / _partial and the list in Lower/CompileOk.v.) *)
 Theorem C05_compile_ok :
   forall P, fprogram P = true -> compile P <> None -> program_ok P = true.
 Proof. exact compile_ok. Qed.
@@ -95,11 +97,14 @@ Print Assumptions C05_program_balanced.
 
 Example C05_program_balanced_nonvacuous :
   let P := mkProg [] (SSeq (SDecl 0 (EConcat (ELit 6%N) (ELit 3%N)))
-                     (SSeq (SIf (EAnd (EUse1 (EConcat (EVar 0) (ELit 2%N))) (EUse2 (EVar 0) (EDerive (EVar 0) 2%N)))
-                                (SBlock (SSeq (SDecl 1 (EConcat (EVar 0) (EVar 0))) (SExpr (EDerive (EVar 1) 2%N))))
-                                (SBlock (SExpr (ELit 4%N))))
+                     (SSeq (SWhile (EUse1 (EConcat (EVar 0) (ELit 2%N)))
+                              (SBlock (SSeq (SDecl 1 (EConcat (EVar 0) (EVar 0)))
+                                      (SSeq (SIf (EAnd (EUse1 (EVar 1)) (EUse2 (EVar 0) (EDerive (EVar 1) 2%N)))
+                                                 (SBlock (SSeq (SAssign 0 (EVar 1)) SContinue))
+                                                 (SBlock (SIf EPrim (SBlock SBreak) (SBlock SSkip))))
+                                            (SAssign 0 (EVar 0))))))
                            (SExpr (EPart 0 1)))) in
-  fprogram P = true /\ exists L, run_program 0 [true; true] P = Some L /\ L <> [] /\ balanced L.
+  fprogram P = true /\ exists L, run_program 9 [true; true; true; true; true; false; true] P = Some L /\ L <> [] /\ balanced L.
 Proof.
   cbn zeta. split; [reflexivity|]. eexists. split; [vm_compute; reflexivity|]. split; [discriminate|].
   apply balancedb_correct. vm_compute. reflexivity.
